@@ -19,6 +19,11 @@ func init() {
 	specialFails["C08"] = func(c Candidate) func(vals []uint64) (bool, *world.RunResult) {
 		return func(vals []uint64) (bool, *world.RunResult) {
 			r, first := c08Run(c.Seed, c.Variant, vals)
+			if c.Oracle == "warm-vs-cold-assets" {
+				_, cold := c08RunCold(c.Seed, c.Variant, r.Tape)
+				label, _ := first.FirstDiff(cold)
+				return label != "" && "C08.asset-cache/"+world.LabelClass(label) == c.Fingerprint, r
+			}
 			for rep := 0; rep < 5; rep++ {
 				_, out := c08Run(c.Seed, c.Variant, r.Tape)
 				if label, _ := first.FirstDiff(out); label != "" && "C08.nondet/"+world.LabelClass(label) == c.Fingerprint {
@@ -75,6 +80,13 @@ func c08Run(seed uint64, variant string, vals []uint64) (*world.RunResult, *worl
 	return r, out
 }
 
+// c08RunCold is c08Run on a host that keeps no asset cache: every task loads the assets afresh.
+func c08RunCold(seed uint64, variant string, vals []uint64) (*world.RunResult, *world.OutputLog) {
+	out := &world.OutputLog{}
+	r := world.RunOne("C08", seed, variant, vals, func(cfg *world.Config) { cfg.Observe = world.CollectOutputs(out); cfg.ColdAssets = true })
+	return r, out
+}
+
 func c08Worker(prop, tier string, seed uint64, from, to, stride int, deadline int64, res *WorkerResult) int {
 	known := loadKnown()
 	sigs := map[string]bool{}
@@ -120,6 +132,21 @@ func c08Worker(prop, tier string, seed uint64, from, to, stride int, deadline in
 						Fingerprint: fp, Msg: fmt.Sprintf("two executions of the same scenario in one process differ at output %s: %s", label, detail)})
 				}
 				bad = true
+			}
+		}
+		// M1': the same world on a host without asset cache - what a long-lived SessionAssets has
+		// served before is incidental process state
+		if !bad {
+			_, outCold := c08RunCold(s, variant, r.Tape)
+			res.Extra["m1_cold_asset_executions"]++
+			if label, detail := out.FirstDiff(outCold); label != "" {
+				fp := "C08.asset-cache/" + world.LabelClass(label)
+				if k := known.match("C08", fp); k != nil {
+					res.KnownSeen[k.Fingerprint]++
+				} else if len(res.Candidates) < 3 {
+					res.Candidates = append(res.Candidates, Candidate{RunIndex: i, Seed: s, Variant: variant, Tape: r.Tape, Prop: "C08", Oracle: "warm-vs-cold-assets",
+						Fingerprint: fp, Msg: fmt.Sprintf("the same scenario on a host that keeps its SessionAssets between tasks and on a host that loads them afresh for every task differ at output %s: %s", label, detail)})
+				}
 			}
 		}
 		if c08Sampled(i, stride) && logDir != "" {
@@ -240,6 +267,25 @@ func c08CrossProcess(self, logDir, tier string, seed uint64, merged *WorkerResul
 func c08Replay(rf *ReplayFile, path string, quiet bool) int {
 	if rf.Oracle == "fresh-process-vs-long-lived" {
 		return c08ReplayProcess(rf, path, quiet)
+	}
+	if rf.Oracle == "warm-vs-cold-assets" {
+		r, warm := c08Run(rf.Seed, rf.Variant, rf.Tape)
+		_, cold := c08RunCold(rf.Seed, rf.Variant, r.Tape)
+		if !quiet {
+			for _, l := range r.Describe(0) {
+				fmt.Println(l)
+			}
+		}
+		if label, detail := warm.FirstDiff(cold); label != "" {
+			fmt.Printf("kept vs freshly loaded assets differ at %s: %s\n", label, clipS(detail, 1200))
+			if "C08.asset-cache/"+world.LabelClass(label) == rf.Fingerprint {
+				fmt.Printf("VIOLATION property=C08 replay=%s\n", path)
+				return 1
+			}
+			return 2
+		}
+		fmt.Println("not reproduced: the outputs are byte-identical with and without asset cache")
+		return 0
 	}
 	if rf.Oracle == "fresh-process-vs-after-sibling" {
 		self, _ := os.Executable()
